@@ -42,6 +42,10 @@ def quick_scenarios(rng):
         scn("h1", "h1", 3, "chunked", b(), "chunked", w(), chunk=rng.choice([7, 100, 1000]), cfrag=rng.choice([0, 3, 500]), seed=s()),
         scn("h1", "h1", 2, "cl", w(), "close", rng.choice([b(), w()]), bfrag=rng.choice([0, 5, 700]), seed=s()),
         scn("h1", "h1", 1, "cl", 400000, "chunked", 400000, chunk=4096, cpause=100000, bpause=100000, sockbuf=16384, seed=s()),
+        # multi-megabyte bodies against a reader that stays paused until the sender is persistently stuck: every
+        # buffer of the chain, sozu's socket send buffer included, is full (partial writes and would-block inside sozu)
+        scn("h1", "h1", 1, "none", 0, "cl", 8000000, step=0, cpause=1000, sockbuf=65536, seed=s()),
+        scn("h1", "h1", 1, "cl", 8000000, "cl", 100, step=0, bpause=1000, sockbuf=65536, seed=s()),
         # HTTP/1.1 -> h2c
         scn("h1", "h2", 3, "cl", w(), "datacl", w(), pad=rng.choice([0, 5]), win=rng.choice([65535, 1000]), cfrag=rng.choice([0, 13]), seed=s()),
         scn("h1", "h2", 2, "chunked", b(), "data", b(), chunk=rng.choice([100, 1000, 16384]), bfrag=rng.choice([0, 100]), seed=s()),
@@ -85,6 +89,10 @@ def random_scenario(rng, big=False):
         chunks += [1]
     if big:
         chunks = [4096, 16384]
+    h2_sender = front == "h2" or back == "h2"
+    if h2_sender:
+        # thousands of tiny DATA frames per stream look like a flood to sozu's H2 guards: tiny units only for H1 chunked
+        chunks = [c for c in chunks if c >= 100]
     chunk = rng.choice(chunks)
     pad = rng.choice([0, 0, 1, 9, 255]) if largest <= 300000 and chunk >= 100 else 0
     win = rng.choice([65535, 65535, 20000, 1 << 20] + ([1000] if largest <= 70000 else []))
